@@ -37,17 +37,30 @@ def build_geo(spec, repo):
         g = mulgrid(os.path.join(repo, 'tests', 'mulgrid', spec['name']))
     else:
         g = mulgrid().rectangular(spec['dx'], spec['dy'], spec['dz'], origin=spec.get('origin'))
+    def warm_up():
+        # location queries BEFORE the next edit of the geometry: anything a search caches on the columns
+        # (bounding boxes, ...) must not survive delete / refine / translate / rotate
+        try:
+            c = g.columnlist[len(g.columnlist) // 2].centre
+            g.column_containing_point(c)
+            g.column_containing_point(c, qtree=g.column_quadtree())
+            g.column_track([g.bounds[0], g.bounds[1]])
+        except Exception:
+            pass
+    warm_up()
     if spec.get('delete'):
         names = [g.columnlist[i].name for i in spec['delete'] if i < len(g.columnlist)]
         for nm in names: g.delete_column(nm)
+        warm_up()
     for ref in spec.get('refine') or []:
         # mulgrid.refine() orders/names its new columns through sets of objects (address order: differs from
         # process to process), so columns are always picked by their rank in a canonical order (by centre)
         canon = canonical_columns(g)
         cols = [canon[i] for i in ref if i < len(canon)]
-        if cols: g.refine(cols)
+        if cols:
+            g.refine(cols); warm_up()
     if spec.get('translate'):
-        g.translate(spec['translate'])
+        g.translate(spec['translate']); warm_up()
     if spec.get('rotate') is not None:
         g.rotate(spec['rotate'])
     if spec.get('surface_seed') is not None and len(g.layerlist) > 2:
@@ -58,6 +71,7 @@ def build_geo(spec, repo):
             u = r.random()
             if u < 0.35: continue
             if u < 0.5: col.surface = top + r.uniform(0.5, 30.0)              # above the top layer
+            elif u < 0.65: col.surface = r.choice(g.layerlist[1:-1]).bottom    # exactly on a layer boundary
             else: col.surface = top - r.uniform(0.05, 0.8) * (top - bot)      # inside some layer
         try:
             for col in g.columnlist: g.set_column_num_layers(col)
@@ -198,7 +212,8 @@ def geometry_specs(rng, thorough):
         specs.append({'label': 'rotated', 'kind': 'rect', 'dx': [dyadic(rng, 20, 300) for _ in range(nx)],
                       'dy': [dyadic(rng, 20, 300) for _ in range(ny)], 'dz': [25.0, 25.0, 50.0, 100.0],
                       'origin': [0.0, 0.0, 0.0], 'translate': [2765984.77, 6261546.23, 0.0],
-                      'rotate': rng.choice([30.0, 90.0, 45.0, rng.uniform(0, 360), rng.uniform(0, 360)]),
+                      # (first repetition: never a multiple of 90 degrees, so that bounding boxes exceed the columns)
+                      'rotate': rng.choice([30.0, 90.0 if rep else 60.0, 45.0, rng.uniform(0, 360), rng.uniform(0, 360)]),
                       'surface_seed': rng.randint(0, 10 ** 6)})
         # 5. gaps: non-convex domain (includes the M-grid of the test-suite in the first repetition)
         if rep == 0:
